@@ -1121,22 +1121,29 @@ def dec_mul(it, a, b):
 
 
 def dec_div(it, a, b):
+    """rust_decimal division (decdiv.py = div_impl ported, validated against the crate on 20 000 random pairs): exact for
+    concrete operands and for a symbolic dividend over a concrete divisor; a symbolic divisor is outside the model"""
+    import decdiv
     if is_zero(it, b.m):
         it.panic('Division by zero')
-    if is_sym(a.m) or is_sym(b.m):
-        raise OutsideModel('symbolic decimal quotient')
-    if a.m == 0:
+    if is_sym(b.m):
+        raise OutsideModel('decimal quotient with a symbolic divisor')
+    if is_zero(it, a.m):
         return Dec(0, 0)
-    q = Fraction(a.m * pow10(b.s), b.m * pow10(a.s))
-    # smallest scale at which q is an integer mantissa
-    for s in range(0, 29):
-        v = q * pow10(s)
-        if v.denominator == 1:
-            if abs(v.numerator) <= MAX96:
-                # rust_decimal keeps at least max(scale_a - scale_b, 0) digits
-                return Dec(v.numerator, s)
-            break
-    raise OutsideModel('decimal quotient is not exact within 28 digits / 96 bits')
+    neg_a = it.truth(a.m < 0) if is_sym(a.m) else a.m < 0
+    mag = (-a.m if neg_a else a.m)
+    if is_sym(mag):
+        mag = simp(dec_int(mag))
+    try:
+        q, s = decdiv.div(mag, a.s, abs(b.m), b.s, truth=it.truth, simp=simp)
+    except decdiv.DivOverflow:
+        it.panic('Division overflowed')
+    neg = neg_a != (b.m < 0)
+    if is_sym(q):
+        q = simp(q)
+        if neg and is_zero(it, q):
+            neg = False
+    return Dec(-q if neg else q, s)
 
 
 def dec_rem(it, a, b):
